@@ -18,6 +18,18 @@ CLAIMED = {
  'C05': dict(text="ObsCore!Reweight/Correlate/Merge are written on (chain, configuration number) -> sample maps. MC_Align: TLC enumerates all weight/observable layout pairs (2 replicas, subsets of 1..6 with >= 5 entries; 4033 states) and checks on the spec: defined iff alignable, WellFormed results, support of the result, constant weight = identity, self-weight = <o^2>/<o>, merge order-independent, flag set and inherited. Real reweight / correlate / merge_obs calls (weights on 1-3 replicas; prefix/suffix/stride/random subsets; replica subsets; both normalisations; lists, Corr, method form; unalignable variants that must raise) are validated by OpsTrace.tla in value, every fluctuation, replica mean, configuration list and flag at 1e-9.",
              note="Trusted: TLC, kernel, projection. Weights are positive with mean 1.",
              technique="TLA+ spec of reweight/correlate/merge model-checked by TLC + trace validation", ref="6 C05"),
+ 'C06': dict(text="CovTrace.tla states the identities of the property on the matrices pe.covariance actually returns, in exact rational arithmetic: symmetry, diagonal = dvalue^2, cov = D corr D, unit diagonal, |corr| <= 1, zero for observables sharing nothing, permutation equivariance (the permuted list is run through the code), Pearson correlation of the stored fluctuations on the common configurations for single-chain observables, positive semi-definiteness by exact LDL^T pivots when all share the configurations, J1 Sigma J2^T for purely external inputs; chol_inv^T chol_inv cov = 1, eigenvalue smoothing keeps the trace (every admissible E), error_band^2 = g^T C g. TLC enumerates every order of up to 4 keys with 1..3 points (2127 scenarios thorough) for sort_corr, replayed into the code, result must be the exact permutation.",
+             note="Trusted: TLC, kernel, projection. Pearson read without re-centring (DESIGN 5.1). Observables whose error is zero are not used.",
+             technique="TLA+ identities checked by TLC on recorded results; TLC-enumerated scenarios replayed", ref="6 C06"),
+ 'C13': dict(text="Resample.tla defines jackknife / bootstrap as exact transforms. MC_Resample: for every data word over {-1,0,1} of length 5..6 (..8 thorough) TLC proves UnJack(Jack(x)) = x, jackknife variance = naive (S=0) squared error of Gamma.tla, and that a bootstrap table determines the samples iff its count matrix has full column rank. Real export_jackknife / import_jackknife / export_bootstrap / import_bootstrap calls on single-chain observables (N = 5..500, all list classes, supplied and name-seeded tables, rank-deficient tables, too few samples) are validated by ResampleTrace.tla at 1e-12 (bootstrap import 1e-8).",
+             note="Trusted: TLC, kernel, projection; the name-seeded tables are read back through save_rng.",
+             technique="TLA+ spec of resampling model-checked by TLC + trace validation", ref="6 C13"),
+ 'C19': dict(text="FormatTrace.tla reads the printed string character by character (Str module), parses value, error and unit as exact decimals and checks |v - value| <= unit/2, |e - dvalue| <= unit/2, the number of significant digits of the error (carry and integer printing included), flags, complex form, plain value for zero error, prior strings through least_squares(...).priors, comparisons / float / is_zero_within_error / Corr.plottable. TLC enumerates the quantifier grid (27 error mantissas at every rounding boundary x 30 decades x 7 value mantissas x 6 magnitude ratios x significance 1..6 = 204 120 points thorough; 1/7 of a 22 680-point sub-grid quick); every point is formatted by the code.",
+             note="Trusted: TLC, kernel (BigDecimal parsing), Str module. Half a unit inclusive; 1e-9 slack on the error (scaled in floating point before rounding).",
+             technique="TLC-enumerated input grid replayed into the code; TLA+ read-back of the printed characters", ref="6 C19"),
+ 'C20': dict(text="Exhaustive: TLC enumerates all 125 + 625 index tuples and the 16 Grid tags plus unknown tags; pyerrors.dirac is evaluated on each and DiracTrace.tla decides with Dirac.tla (permutation sign by inversion count / rejection outside the domain; every tag = stated product or commutator of the dumped base matrices; Clifford algebra, Hermiticity, gamma5 = product and anticommuting, on the dumped arrays in exact Gaussian-rational arithmetic). K_n(obs) for n = 0..6 on an x grid: value and every fluctuation against -(K_{n-1}+K_{n+1})/2 from the kernel's integral representation; 29 re-exported special functions: propagated fluctuation against the 3-level Richardson derivative of the function's own scipy values at 1e-6.",
+             note="Trusted: TLC, kernel (K_n by trapezoidal rule on the integral representation), scipy's function VALUES for the Richardson oracle.",
+             technique="exhaustive TLC enumeration replayed into the code + TLA+ algebra on dumped tables; trace validation for derivatives", ref="6 C20"),
 }
 PENDING = {}
 props = [json.loads(l) for l in open(os.path.join(V, 'properties.jsonl'))]
